@@ -40,10 +40,15 @@ def gen(stream, rng, i, cfg):
             slots.append(scen.gen_slot(rng, fault=fault, hostile=rng.random() < 0.2, excs=scen.BENIGN_EXC))
         threads.append({'slots': own, 'tasks': []})
     all_names = sorted(set(n for s in slots for n in s['variables']))
+    all_fns = sorted(set(n for s in slots for n in s['functions']))
     for t, th in enumerate(threads):
         for _ in range(rng.choice([1, 1, 2, 3, 6])):
             s = rng.choice(th['slots'])
             env = scen.slot_env(slots[s], extra_unbound=[n for n in all_names if n not in slots[s]['variables']])
+            # names that only ANOTHER parser registers: this parser must not see them
+            for n in all_fns:
+                if n not in slots[s]['functions'] and n not in ('SUM', 'IF', 'ABS', 'LEN'):
+                    env.functions[n] = 0
             r = rng.random()
             if r < 0.08:
                 f = formgen.g2_soup(rng)
